@@ -288,7 +288,7 @@ func c12Property(t *rapid.T) {
 			}
 			if rapid.IntRange(0, 24).Draw(t, "negTimeout") == 0 {
 				// accepted by Store's own validation (it only rejects 0): a timeout that wraps around as uint64
-				a.Timeout = int32(rapid.SampledFrom([]int{-1, -7, -1 << 31}).Draw(t, "timeout"))
+				a.Timeout = int32(rapid.SampledFrom([]int{0, 0, -1, -7, -1 << 31}).Draw(t, "timeout"))
 			}
 			if twinTimeout != 0 {
 				a.Timeout = twinTimeout
